@@ -57,6 +57,15 @@ Definition pd_decode (decs : list hufftree) (b : list N) (outlen : nat) : option
   | d0 :: _ => huff_decode d0 b outlen
   end.
 
+(* AdaptiveParallelEncoder::encode_adaptive, the Huffman arms: the variant is chosen by the payload size alone
+   (below 64 KiB x2, below 1 MiB x4, else x8; the algorithm choice - an f64 entropy estimate - is outside the model),
+   then `huffman_xN.train(data)?; huffman_xN.encode(data)` on that member object, whatever state it is in *)
+Definition ad_streams (len : N) : nat := if len <? 65536 then 2%nat else if len <? 1048576 then 4%nat else 8%nat.
+Definition ad_huffman (heap_of : list N -> tree) (d : list N) (st : penc) : penc * option (list N) :=
+  let n := ad_streams (N.of_nat (length d)) in
+  let '(st1, ok) := p_train heap_of n d st in
+  if ok then p_encode heap_of n d st1 else (st1, None).
+
 (* a history of calls on one encoder object; the run records, for every encode, the payload, the answer and the
    text whose model is in force (what the user hands to HuffmanTree::from_data for the decoder): the text of the
    last successful train, or the payload the encoder trained itself on *)
@@ -76,7 +85,7 @@ Fixpoint p_run (heap_of : list N -> tree) (n : nat) (ops : list pop) (st : penc)
   end.
 
 (* ------------------------------------------------------------------ *)
-(* entry point of the harness-generated case files (op 12)              *)
+(* entry point of the harness-generated case files (ops 12, 13)          *)
 (* ------------------------------------------------------------------ *)
 (* a = n :: nops :: ops, each op = kind (0 train, 1 encode) :: len :: bytes ++ the code table HuffmanTree::from_data
    of these bytes has in the real code ([nsym; s; len; val; ...]).  The heap is outside the model: `heap_of` answers
@@ -123,11 +132,25 @@ Fixpoint parse_pops (k : nat) (l : list N) : option (list pop * heaps_t) :=
   end.
 Definition lres (o : option (list N)) : list N := let r := res o in N.of_nat (length r) :: r.
 Definition run_case_par (op : N) (a b : list N) : list N :=
-  match op, a with
-  | 12, n :: nops :: rest =>
+  match (op =? 12) || (op =? 13), a with
+  | true, n :: nops :: rest =>
       match parse_pops (N.to_nat nops) rest with
       | Some (ops, hs) =>
           let heap_of := heap_lookup hs in
+          if n =? 0 then
+            (* AdaptiveParallelEncoder::encode_adaptive(d) on a fresh object, Huffman arm: the lanes its size rule selects,
+               its answer, and what a HuffmanDecoder on from_data(d) makes of it *)
+            match ops with
+            | PTrain d :: _ =>
+                let out := snd (ad_huffman heap_of d p_new) in
+                N.of_nat (ad_streams (N.of_nat (length d))) :: lres out ++
+                lres (match out, from_data heap_of d with
+                      | Some bts, Some ht => huff_decode ht bts (length d)
+                      | _, _ => None
+                      end)
+            | _ => bad_case
+            end
+          else
           flat_map (fun r =>
             let '(d, out, txt) := r in
             match out, txt with
